@@ -39,6 +39,7 @@ EXTENDS Integers, Sequences, FiniteSets, TLC, Json, Functions
 CONSTANTS Sizes,      \* set of state counts n to check
           Families,   \* subset of {"bd", "chord", "hub", "ring", "prod"}
           PatIds,     \* subset of DOMAIN Pats
+          Priors,     \* subset of {0, 1}: prior_counts None / 1
           Tags,       \* containers of the caller's matrix: subset of {"dense", "sparse"}
           DenseMax,   \* full-sum cross-check for n <= DenseMax
           Emit
@@ -133,7 +134,7 @@ Init ==
   /\ fam \in {f \in Families : f = "prod" => KOf(n) # 0}
   /\ pat \in PatIds
   /\ builder \in {"normalize", "transpose"}
-  /\ prior \in {0, 1}
+  /\ prior \in Priors
   /\ tag \in Tags
   /\ C = [i \in Idx |-> [j \in Sup(i) |-> Cnt(i, j)]]
   /\ W = C /\ bg = 0 /\ wtag = tag
@@ -187,12 +188,35 @@ X(i) == pi[i][1] \div rs[i]                                             \* pi(i)
 
 CallerUnchanged == [][C' = C /\ n' = n /\ fam' = fam /\ pat' = pat]_vars
 
-(* the declared supports are sound: a column support lists exactly the rows whose support contains the column,
-   every count is non-negative, the links of the reversible families are symmetric *)
+(* membership in a row / column support without building the set: the supports of the product family are
+   Cartesian products (block index, index inside the block) of the factors' supports *)
+IsSup(i, j) == IF fam = "prod"
+               THEN LET K == KOf(n)  mm == n \div K
+                    IN /\ ((j - 1) \div mm) + 1 \in SupF("ringp", K, ((i - 1) \div mm) + 1)
+                       /\ ((j - 1) % mm) + 1 \in SupF("hub", mm, ((i - 1) % mm) + 1)
+               ELSE j \in Sup(i)
+IsIn(i, j) == IF fam = "prod"
+              THEN LET K == KOf(n)  mm == n \div K
+                   IN /\ ((i - 1) \div mm) + 1 \in InF("ringp", K, ((j - 1) \div mm) + 1)
+                      /\ ((i - 1) % mm) + 1 \in InF("hub", mm, ((j - 1) % mm) + 1)
+              ELSE i \in In(j)
+CardSup(i) == IF fam = "prod"
+              THEN LET K == KOf(n)  mm == n \div K
+                   IN Cardinality(SupF("ringp", K, ((i - 1) \div mm) + 1)) * Cardinality(SupF("hub", mm, ((i - 1) % mm) + 1))
+              ELSE Cardinality(Sup(i))
+CardIn(j) == IF fam = "prod"
+             THEN LET K == KOf(n)  mm == n \div K
+                  IN Cardinality(InF("ringp", K, ((j - 1) \div mm) + 1)) * Cardinality(InF("hub", mm, ((j - 1) % mm) + 1))
+             ELSE Cardinality(In(j))
+
+(* the declared supports are sound: the support sets are what the membership tests say (inclusion + equal size),
+   a column support lists exactly the rows whose support contains the column, every count is non-negative,
+   the links of the reversible families are symmetric *)
 SupportsOK == pc = "prior" => \A i \in Idx :
    /\ Sup(i) \subseteq Idx /\ In(i) \subseteq Idx
-   /\ \A j \in Sup(i) : i \in In(j) /\ Cnt(i, j) >= 0
-   /\ \A j \in In(i) : i \in Sup(j)
+   /\ Cardinality(Sup(i)) = CardSup(i) /\ Cardinality(In(i)) = CardIn(i)
+   /\ \A j \in Sup(i) : IsSup(i, j) /\ IsIn(i, j) /\ Cnt(i, j) >= 0
+   /\ \A r \in In(i) : IsIn(r, i) /\ IsSup(r, i)
    /\ Reversible => \A j \in Sup(i) : Link(fam, n, i, j) = Link(fam, n, j, i)
 (* n <= DenseMax: nothing outside the supports *)
 SupportsComplete == (pc = "prior" /\ n <= DenseMax) => \A i, j \in Idx : (j \notin Sup(i) \/ i \notin In(j)) => Cnt(i, j) = 0
